@@ -243,6 +243,18 @@ def _unify(p, c, bind, diffs):
             diffs.append(('name', p.id, norm(c)))
             return True
         return False
+    if isinstance(p, ast.arg):
+        if not isinstance(c, ast.arg):
+            return False
+        if p.arg.startswith('_R_'):
+            role = p.arg[3:]
+            if role in bind and bind[role] != c.arg:
+                diffs.append(('role %s' % role, bind[role], c.arg))
+            else:
+                bind[role] = c.arg
+        elif p.arg != c.arg:
+            diffs.append(('parameter', p.arg, c.arg))
+        return True
     if isinstance(p, ast.Constant):
         if isinstance(c, ast.Constant):
             if p.value != c.value or type(p.value) is not type(c.value):
